@@ -218,9 +218,9 @@ theorem hLoop_counted {σ : Type} (P : HParams α n) (Kn : HKernel α n) (hk : K
       exact ih s' hi r h
 
 /-- the initial meter is counted provided the `hinit` probe makes exactly the one call the code adds to `evals.ode` -/
-theorem startMeter_counted (f : Rhs α n) (x0 : α) (y0 : Vec α n) (posneg : α) (firstStep : Option α)
+theorem startMeter_counted (f : Rhs α n) (x0 : α) (y0 : Vec α n) (posneg hcap : α) (firstStep : Option α)
     (hinit : Rhs α n → Vec α n → α × Array (α × Vec α n)) (hh : ∀ f' k, (hinit f' k).2.size = 1) :
-    (startMeter f x0 y0 posneg firstStep hinit).2.2.Counted := by
+    (startMeter f x0 y0 posneg hcap firstStep hinit).2.2.Counted := by
   unfold startMeter
   have h0 : (({} : Meter α n).bump #[(x0, y0)] 1).Counted := Meter.counted_bump Meter.counted_init _ _ rfl
   cases firstStep with
@@ -236,7 +236,7 @@ theorem hSolve_counted {σ : Type} (P : HParams α n) (Kn : HKernel α n) (hk : 
     (h : hSolve P Kn f ob obs0 x0 y0 firstStep hinit fo hl fuel = some r) :
     r.m.cnt.ode = r.m.ncalls ∧ nOde r.m.log = r.m.ncalls := by
   unfold hSolve at h
-  have hm := Meter.counted_cb (startMeter_counted f x0 y0 P.posneg firstStep hinit hh) x0 x0 y0 #[]
+  have hm := Meter.counted_cb (startMeter_counted f x0 y0 P.posneg P.hmax firstStep hinit hh) x0 x0 y0 #[]
   unfold hStart at h
   dsimp only at h
   split at h
@@ -402,9 +402,9 @@ theorem hLoop_inv {σ : Type} (P : HParams α n) (Kn : HKernel α n) (f : Rhs α
       rw [heq] at hi
       exact ih s' hi r h
 
-theorem startMeter_pairs (f : Rhs α n) (x0 : α) (y0 : Vec α n) (posneg : α) (firstStep : Option α)
+theorem startMeter_pairs (f : Rhs α n) (x0 : α) (y0 : Vec α n) (posneg hcap : α) (firstStep : Option α)
     (hinit : Rhs α n → Vec α n → α × Array (α × Vec α n)) :
-    (startMeter f x0 y0 posneg firstStep hinit).2.2.pairs = [] ∧ (startMeter f x0 y0 posneg firstStep hinit).2.2.cnt.total = 0 := by
+    (startMeter f x0 y0 posneg hcap firstStep hinit).2.2.pairs = [] ∧ (startMeter f x0 y0 posneg hcap firstStep hinit).2.2.cnt.total = 0 := by
   have h0 : (({} : Meter α n)).pairs = [] := rfl
   unfold startMeter
   cases firstStep <;> simp [h0] <;> rfl
@@ -418,8 +418,8 @@ theorem hSolve_protocol {σ : Type} (P : HParams α n) (Kn : HKernel α n) (f : 
     (h : hSolve P Kn f ob obs0 x0 y0 firstStep hinit fo hl fuel = some r) :
     ChainTo r.m.pairs r.x ∧ r.m.cnt.total ≤ P.nmax + 1 := by
   unfold hSolve at h
-  have hp := startMeter_pairs f x0 y0 P.posneg firstStep hinit
-  have hc0 : ChainTo ((startMeter f x0 y0 P.posneg firstStep hinit).2.2.cb x0 x0 y0 #[]).pairs x0 := by
+  have hp := startMeter_pairs f x0 y0 P.posneg P.hmax firstStep hinit
+  have hc0 : ChainTo ((startMeter f x0 y0 P.posneg P.hmax firstStep hinit).2.2.cb x0 x0 y0 #[]).pairs x0 := by
     rw [Meter.pairs_cb, hp.1]; exact ChainTo.init x0
   unfold hStart at h
   dsimp only at h
